@@ -676,6 +676,13 @@ for k in (1, 2, 3):
     sub = grp([grp(eqs[:1]), grp(eqs)], True).get_converged_condition(); n += 1
     w2 = '(self.e0.converged() > 0) & ' + want
     if sub != w2: bad = dict(subgroups=True, emitted=sub, expected=w2)
+    # a sub-group without equations (a callback-only group) has nothing to
+    # converge: it must not leave a dangling operator in the condition
+    for pos in (0, 1, 2):
+        subs = [grp(eqs[:1]), grp(eqs)]
+        subs.insert(pos, grp([]))
+        sub = grp(subs, True).get_converged_condition(); n += 1
+        if sub != w2 and bad is None: bad = dict(subgroups=True, empty_subgroup_at=pos, emitted=sub, expected=w2)
 res['converged'] = dict(cases=n, bad=bad)
 # ---- _make_data
 class Q:
